@@ -78,7 +78,7 @@ class Builder:
                  ("catch", 7), ("raise", 3), ("throw", 2), ("safe", 3 if main and not self.in_safe else 0), ("setcg", 2 if main and self.use_setcg else 0),
                  ("install", 2 if main and not self.use_setcg else 0), ("installbad", 2 if main and not self.use_setcg else 0), ("load", 2 if main and not self.in_rep else 0),
                  ("clone", 2 if main else 0),
-                 ("inithook", 3 if main and not self.in_rep else 0), ("dhook", 3 if main and not self.in_rep else 0)]
+                 ("arity", 5), ("inithook", 3 if main and not self.in_rep else 0), ("dhook", 3 if main and not self.in_rep else 0)]
         k = rng.weighted(kinds)
         self.count(k)
         t = "t"
@@ -199,6 +199,29 @@ class Builder:
                 self.prep.append('load_object ("%s");' % path)
                 stmts.append('new ("%s");' % path)
             ops.append("(tmp 1 (load (call other %s 0 0 (call local %s 0 0 %s))))" % (t, t, " ".join(o)))
+        elif k == "arity":
+            # surplus / missing arguments through call_other and through a function pointer; callee with 0 or 4 locals
+            passed, declared = rng.range(0, 3), rng.range(0, 3)
+            b, o = self.sub(fctx, depth)
+            few = rng.chance(1, 2)
+            params = ", ".join("int a%d" % j for j in range(declared))
+            if few:
+                # a callee without locals that only calls on: the value stack is as low as it can be
+                inner = self.fn(fctx, b)
+                i = self.fresh()
+                name = "f%d" % i
+                self.files[fctx]["fns"].append("void %s (%s) { %s (); }" % (name, params, inner))
+                body_ops = "(call local %s 0 0 %s)" % (t, " ".join(o))
+            else:
+                name = self.fn(fctx, b, params=params)
+                body_ops = "(tmp 4 %s)" % " ".join(o)
+            args = ", ".join(str(j + 1) for j in range(passed))
+            if rng.chance(1, 2):
+                stmts.append("this_object ()->%s (%s);" % (name, args))
+                ops.append("(call other %s %d %d %s)" % (t, passed, declared, body_ops))
+            else:
+                stmts.append("evaluate ((: %s :)%s);" % (name, (", " + args) if args else ""))
+                ops.append("(call fplocal %s %d %d %s)" % (t, passed, declared, body_ops))
         elif k == "inithook":
             # an object with an init() hook moves itself into the room where the living `mob` stands:
             # move_object() sets command_giver = mob and applies init() in the object
@@ -315,6 +338,23 @@ DEPTH_ACTIONS = {
     "functional": ("evaluate ((: leafi () + $1 :), 1);", "(call functional t 1 1 (call local t 0 0 (say x)))"),
     "efunp": ('evaluate ((: call_other, this_object (), "leaf" :));', "(call efunp t 0 0 (call other t 0 0 (say x)))"),
 }
+
+
+def arity_case(passed, declared, nlocals, body):
+    """the driver's safe_apply() of a function that declares `declared` parameters, handed `passed` arguments;
+    the callee has `nlocals` locals; error at every instruction (and a raised one when body == 'raise')"""
+    params = ", ".join("int a%d" % i for i in range(declared))
+    locs = " ".join("int l%d;" % i for i in range(nlocals))
+    if body == "raise":
+        stmt, bops = 'error ("boom1\\n");', "(raise boom1)"
+    elif body == "call":
+        stmt, bops = "leaf ();", "(call local t 0 0 (say x))"
+    else:
+        stmt, bops = 'VL ("say x");', "(say x)"
+    fns = ['void leaf () { VL ("say x"); }', "void tgt (%s) { %s %s }" % (params, locs, stmt)]
+    ops = "(safe %d %d (tmp %d %s))" % (passed, declared, nlocals, bops)
+    cid = "b-arity-safe-p%d-d%d-l%d-%s" % (passed, declared, nlocals, body)
+    return fixed_case(cid, "", ops, fns=fns, inject="injectsafe t tgt %d" % passed)
 
 
 def depth_case(action, maxdepth, frames_at_action, outer_catch):
@@ -459,6 +499,17 @@ class C05(Prop):
                             "(catch (tmp 1 (dhook t (call other t 1 1 (throw t8))))) (saycatch)",
                             fns=["object bx;"], prep=dprep % ("DT", "DT", "DT"),
                             extra_files={"DT": dsrc % 'throw ("t8");'}))
+        # a safe apply with two surplus arguments made from INSIDE an LPC evaluation: compiling a broken file makes the
+        # compiler call master::log_error(file, message), declared without parameters in the C05 master
+        B.append(fixed_case("b-arity-log_error", 'a = ({ 1, 2, 3 }); ' + CATCHSTMT % 'load_object ("/c05/gen/BAD")' + ' VL ("say kept-" + sizeof (a));',
+                            "(catch (tmp 1 (load (safe 2 0 (say compile-error)) (raisemsg *Error in loading object '/c05/gen/BAD':)))) (saycatch) (say kept-3)",
+                            extra_files={"BAD": "void create () { int x = ; }\n"}))
+        # arity: safe_apply() from driver level with surplus / missing arguments (-3..+3), few / many locals
+        for passed in range(4):
+            for declared in range(4):
+                for nlocals in (0, 4):
+                    for body in ("say", "raise", "call"):
+                        B.append(arity_case(passed, declared, nlocals, body))
         # the control-stack limit: every kind of frame push / save_context placed at exactly limit-2, limit-1 and limit
         # frames (save_context refuses at `limit` frames and must leave the chain alone)
         for action in sorted(DEPTH_ACTIONS):
